@@ -124,6 +124,12 @@ func jobsFor(prop, tier string) []Job {
 		for _, c := range []string{"rbt", "avl", "treemap"} {
 			add("iter", c, 20, map[string]string{"c": c}, map[string]int{"n": pick(8, 11), "rank": 1})
 		}
+		// keys that are not equal to themselves (NaN under the default comparator, which orders it first):
+		// an iterator must find its way by the comparator, not by ==
+		for _, c := range []string{"rbt", "avl", "treemap", "treeset"} {
+			add("iter", c+".New.float64", 3, map[string]string{"c": c, "ctor": "default", "elem": "float"}, nil)
+		}
+		add("iter", "btree3.New.float64", 3, map[string]string{"c": "btree", "ctor": "default", "elem": "float"}, map[string]int{"m": 3})
 		// B-tree iterators descend/climb through every level: height 4 first exists at 15 keys for
 		// orders 3 and 4 (2*ceil(m/2)^(h-1)-1), height 3 at 17 keys for order 5
 		for _, m := range []int{3, 4} {
@@ -132,6 +138,15 @@ func jobsFor(prop, tier string) []Job {
 		add("iter", "btree5", 40, map[string]string{"c": "btree"}, map[string]int{"m": 5, "n": pick(18, 21), "rank": 1, "fullpred": 3})
 		if !q {
 			add("iter", "btree6", 40, map[string]string{"c": "btree"}, map[string]int{"m": 6, "n": 23, "rank": 1, "fullpred": 3})
+		}
+		// large trees: history families (family.go)
+		for _, c := range []string{"rbt", "avl", "treemap", "treeset", "treebidimap"} {
+			for _, cm := range []string{"nat", "rev"} {
+				add("family", fmt.Sprintf("%s.%s.iterfamily.u%d", c, cm, pick(40, 72)), 10, map[string]string{"c": c, "cmp": cm, "check": "iter"}, map[string]int{"u": pick(40, 72)})
+			}
+		}
+		for _, m := range []int{3, 4, 5, 8} {
+			add("family", fmt.Sprintf("btree%d.iterfamily.u%d", m, pick(48, 80)), 10, map[string]string{"c": "btree", "cmp": "nat", "check": "iter"}, map[string]int{"u": pick(48, 80), "m": m})
 		}
 	case "C13":
 		for _, c := range []string{"hashset", "linkedhashset", "treeset"} {
@@ -174,6 +189,12 @@ func jobsFor(prop, tier string) []Job {
 					continue
 				}
 				add("enum", fmt.Sprintf("treebidimap.%s.%s.u%d", kc, vc, n), 8, map[string]string{"c": "treebidimap", "cmp": kc, "vcmp": vc}, map[string]int{"u": n, "vu": pick(3, 4), "maxn": n})
+			}
+		}
+		// large tree-backed receivers: history families (family.go)
+		for _, c := range []string{"treeset", "treemap", "treebidimap"} {
+			for _, cm := range []string{"nat", "rev"} {
+				add("family", fmt.Sprintf("%s.%s.enumfamily.u%d", c, cm, pick(40, 72)), 10, map[string]string{"c": c, "cmp": cm, "check": "enum"}, map[string]int{"u": pick(40, 72), "maxn": 4})
 			}
 		}
 	case "C11":
@@ -480,6 +501,13 @@ func jsonContainerJobs(q bool, n, u int) []cjob {
 	for _, c := range []string{"hashbidimap", "treebidimap"} {
 		addj(c, 2, map[string]string{"c": c}, map[string]int{"u": u - 1, "vu": u - 1})
 	}
+	// elements / values whose JSON form omits zero fields (anysys.go OV)
+	for _, c := range []string{"arraylist", "doublylinkedlist", "arraystack", "linkedlistqueue", "binaryheap", "hashset", "linkedhashset", "treeset",
+		"hashmap", "linkedhashmap", "treemap", "rbt", "avl", "hashbidimap", "treebidimap"} {
+		js = append(js, cjob{c + ".ov", 2, map[string]string{"c": c, "elem": "ov"}, map[string]int{"n": min(n, 3), "u": 3, "vu": 3}})
+	}
+	js = append(js, cjob{"circularbuffer2.ov", 2, map[string]string{"c": "circularbuffer", "elem": "ov"}, map[string]int{"cap": 2, "u": 3}})
+	js = append(js, cjob{"btree3.ov", 2, map[string]string{"c": "btree", "elem": "ov"}, map[string]int{"m": 3, "u": 3, "vu": 3}})
 	for m := 3; m <= 6; m++ {
 		bu := u + 2
 		if bu > 4 && !q && n <= 3 {
@@ -503,7 +531,7 @@ func defaultCtorJobs(prop string, q bool, add func(kind, id string, w int, s map
 		add("kv", fmt.Sprintf("btree%d.New.u%d", m, u), u, map[string]string{"c": "btree", "ctor": "default"}, map[string]int{"u": u, "m": m})
 	}
 	// float64 keys with NaN, -Inf/+Inf through the default constructors (cmp.Compare orders NaN first)
-	for _, c := range []string{"rbt", "avl", "treemap"} {
+	for _, c := range []string{"rbt", "avl", "treemap", "treeset"} {
 		add("kv", c+".New.float64", 3, map[string]string{"c": c, "ctor": "default", "elem": "float"}, nil)
 	}
 	add("kv", "btree3.New.float64", 3, map[string]string{"c": "btree", "ctor": "default", "elem": "float"}, map[string]int{"m": 3})
